@@ -242,6 +242,13 @@ def _branch(ps, cond, pol):
     for atom, apol in C.cond_facts(cond, pol):
         v = None
         a = atom.strip_all_casts()
+        if a.k in ("IntegerLiteral", "CharacterLiteral") or (a.k == "DeclRefExpr" and a["decl"]["kind"] == "enumconst"):
+            # a literal condition (`do { ... } while (0)`, `while (1)`): one way is infeasible, the other says nothing
+            cv = C.const_of(a)
+            if cv is not None:
+                if bool(cv) != bool(apol):
+                    return False
+                continue
         if a.k == "DeclRefExpr" and a["decl"]["kind"] in ("local", "param"):
             v = ps.env.get(a["decl"]["name"])
             if v is None and a["decl"]["kind"] == "param" and a.get("tk") in ("int", "enum") and \
